@@ -2,8 +2,17 @@
 
 The connection state is tracked as a *cell* ``(state, disc)``:
 
-* ``state``  in {HANDSHAKE, ACCEPTED, CLOSED}: value of the attribute that
-  ``WebSocket.__init__`` initialises with a ``_WebSocketState`` member;
+* ``state``  a member of ``_WebSocketState``: value of the attribute that
+  ``WebSocket.__init__`` initialises with a ``_WebSocketState`` member.  The
+  members are READ from the Enum class.  HANDSHAKE/ACCEPTED/CLOSED are anchors;
+  every further member is classified by what the code does with it
+  (``WSModel.states()``): one that no reachable code writes is never a state of
+  a connection (comparisons with it are still evaluated); one that ``accept()``
+  can return in would be a second "open" state, which is not modelled (unknown
+  idiom); every other written member - recorded by ``close()``, by the
+  disconnect paths of ``_send``/``_receive`` - is a *terminal* member, i.e. one
+  more way of being closed, and all obligations that hold for CLOSED are
+  evaluated for it too;
 * ``disc``   in {False, True}: value of ``<buffered receiver>.client_disconnected``.
 
 A context-sensitive, path-sensitive (on exactly these two variables)
@@ -183,9 +192,21 @@ class WSModel:
         for s in STATES:
             if s not in enum.attrs:
                 raise AnchorError('%s.%s not found' % (WS_STATE_ENUM, s))
-        extra = sorted(set(k for k in enum.attrs if not k.startswith('_')) - set(STATES))
-        if extra:
-            raise UnknownIdiom('%s has members the model does not know: %s' % (WS_STATE_ENUM, extra))
+        if not any(b in ('enum.Enum', 'enum.IntEnum') for b in enum.bases):
+            raise UnknownIdiom('%s is not a plain Enum (bases %s)' % (WS_STATE_ENUM, enum.bases))
+        # members are read from the class; two names for one value would be aliases of ONE member
+        self.members: List[str] = [k for k in enum.attrs if not k.startswith('_')]
+        vals = {}
+        for k in self.members:
+            v = enum.attrs[k]
+            if isinstance(v, ast.Call) and p.resolve_expr(enum.module, v.func) == 'enum.auto' and not v.args and not v.keywords:
+                continue
+            c = p.fold(enum.module, v, enum)
+            if c is UNKNOWN or isinstance(c, (list, dict)) or c in vals:
+                raise UnknownIdiom('%s.%s = %s: value not understood (alias of another member?)' % (WS_STATE_ENUM, k, short(v)))
+            vals[c] = k
+        self._states: Optional[List[str]] = None
+        self.unwritten_members: List[str] = []
         init = p.func(WS + '.__init__')
         self.init = init
         params = init.params()
@@ -242,7 +263,7 @@ class WSModel:
         q = self.p.resolve_expr(func.module, expr, func)
         if q and q.startswith(WS_STATE_ENUM + '.'):
             m = q[len(WS_STATE_ENUM) + 1:]
-            if m in STATES:
+            if m in self.members:
                 return m
         return None
 
@@ -376,17 +397,18 @@ class WSModel:
                 out.append(n.id)
         return out
 
-    def _sets_state_to(self, func: Func, stmt, member: str) -> bool:
+    def _sets_state_to(self, func: Func, stmt, member) -> bool:
+        want = (member,) if isinstance(member, str) else tuple(member)
         if isinstance(stmt, ast.Assign) and len(stmt.targets) == 1 and self.is_state(stmt.targets[0]):
-            return self._member(func, stmt.value) == member
+            return self._member(func, stmt.value) in want
         if isinstance(stmt, ast.AnnAssign) and self.is_state(stmt.target):
-            return self._member(func, stmt.value) == member
+            return self._member(func, stmt.value) in want
         return False
 
-    def state_write_stmts(self, func: Func, member: str, depth=0) -> List[ast.AST]:
+    def state_write_stmts(self, func: Func, member, depth=0) -> List[ast.AST]:
         """Simple statements of `func` after whose normal completion the state attribute may have been set
-        to `member`: the assignment itself, or a statement calling a method of the state machine that
-        (transitively, two levels) contains such an assignment."""
+        to `member` (one member name, or a collection of them): the assignment itself, or a statement calling a
+        method of the state machine that (transitively, two levels) contains such an assignment."""
         cfg = cfg_of(func, self.p)
         out = []
         seen = set()
@@ -478,17 +500,26 @@ class WSModel:
                     for cl in after:
                         res.state_writes.add((k, func.qual, nid))
             if n.kind == 'stmt' and isinstance(n.ast, ast.Raise):
-                q = None
-                if n.ast.exc is not None:
+                qs = []
+                factory = self._self_method(func, n.ast.exc) if isinstance(n.ast.exc, ast.Call) else None
+                if factory is not None:
+                    # raise self._make_error(...): the classes the same-class factory can hand back
+                    kinds = return_kinds(p, factory)
+                    if RET_NONE in kinds:
+                        raise UnknownIdiom('%s: raises the result of %s, which can be None' % (func.qual, factory.qual))
+                    qs = sorted(kinds)
+                elif n.ast.exc is not None:
                     e = n.ast.exc.func if isinstance(n.ast.exc, ast.Call) else n.ast.exc
                     q = p.resolve_expr(func.module, e, func)
                     if q is not None and not (q in p.classes or q.startswith('builtins.')):
                         q = None
                     if q is None:
                         q = '?' + short(n.ast.exc, 60)
+                    qs = [q]
                 else:
-                    q = '<re-raise>'
-                res.raises.add((q, cell, func.qual, nid))
+                    qs = ['<re-raise>']
+                for q in qs:
+                    res.raises.add((q, cell, func.qual, nid))
             atom = None
             for (y, l) in cfg.succ[nid]:
                 if l == 'exc':
@@ -512,5 +543,79 @@ class WSModel:
                         work.append(k2)
         return res
 
+    # ------------------------------------------------------------ the states
+    def public_ops(self) -> List[Func]:
+        return [f for name, f in sorted(self.cls.methods.items()) if not name.startswith('_') and not f.is_property()]
+
+    def states(self) -> List[str]:
+        """The members a connection can be in: the three anchors plus every further member that some public
+        operation, entered in a state already known to be possible, can write (least fixpoint)."""
+        if self._states is not None:
+            return self._states
+        ops = self.public_ops()
+        acc = self.cls.methods.get('accept')
+        if acc is None:
+            raise AnchorError('%s.accept not found' % WS)
+        known = list(STATES)
+        open_like: Set[str] = set()
+        while True:
+            written: Set[str] = set()
+            for f in ops:
+                for s in known:
+                    for d in (False, True):
+                        r = self.analyse(f, (s, d))
+                        written |= {k for (k, _fq, _nid) in r.state_writes}
+                        if f is acc:
+                            open_like |= {s2 for (s2, _d2) in r.exits if s2 != s}
+            new = [k for k in self.members if k in written and k not in known]
+            if not new:
+                break
+            known += new
+        extra_open = sorted(k for k in known if k not in STATES and k in open_like)
+        if extra_open:
+            raise UnknownIdiom('%s: accept() can return in the additional state(s) %s; a second accepted-like state is not modelled'
+                               % (WS_STATE_ENUM, extra_open))
+        self.unwritten_members = [k for k in self.members if k not in known]
+        self._states = known
+        return known
+
+    def terminal_states(self) -> List[str]:
+        """CLOSED and every additional member the code records (none of them is the initial or the accepted state)"""
+        return [s for s in self.states() if s not in ('HANDSHAKE', 'ACCEPTED')]
+
+    def extra_terminal_states(self) -> List[str]:
+        return [s for s in self.terminal_states() if s != 'CLOSED']
+
     def all_cells(self):
-        return [(s, d) for s in STATES for d in (False, True)]
+        return [(s, d) for s in self.states() for d in (False, True)]
+
+    def call_closure(self, func: Func, bound=6) -> List[Func]:
+        """`func` and the methods/properties of the class it uses through ``self``, transitively"""
+        seen: Dict[str, Func] = {}
+        work = [(func, 0)]
+        while work:
+            f, dep = work.pop()
+            if f.qual in seen or dep > bound:
+                continue
+            seen[f.qual] = f
+            for x in walk_self(f.node):
+                if isinstance(x, ast.Attribute) and isinstance(x.value, ast.Name) and x.value.id == 'self' and isinstance(x.ctx, ast.Load):
+                    m = self.p.lookup_method(self.cls.qual, x.attr)
+                    if m is not None:
+                        work.append((m, dep + 1))
+        return [seen[q] for q in sorted(seen)]
+
+    def guards_distinguishing(self, func: Func, a: str, b: str, disc: bool) -> List[Tuple[Func, ast.AST]]:
+        """Branch conditions in `func` and what it calls that evaluate differently for state `a` and state `b`."""
+        out = []
+        for g in self.call_closure(func):
+            if g.is_property():
+                continue        # a property is judged where it is tested
+            cfg = cfg_of(g, self.p)
+            for n in cfg.live_nodes():
+                cond = n.ast if n.kind == 'test' else (n.ast.test if n.kind == 'stmt' and isinstance(n.ast, ast.Assert) else None)
+                if cond is None:
+                    continue
+                if possible(cond, self.atom_for(g, (a, disc))) != possible(cond, self.atom_for(g, (b, disc))):
+                    out.append((g, cond))
+        return out
